@@ -44,7 +44,7 @@ def run(ctx, rep):
     F = ctx.lib
     rep.explanation = ("Who-may-call and error-discipline rules over the generic functions that hold the caller's Read/Write "
                        "objects during reconstruction: short reads/partial writes cannot be mistaken for completion because the only "
-                       "count-returning call is the one-byte EOF probe; no I/O error can become a panic or be dropped; a chunk's bytes "
+                       "count-returning call is the one-byte EOF probe (any other count-returning read must bound every later use of its buffer by the count); no I/O error can become a panic or be dropped; a chunk's bytes "
                        "reach the destination only after that chunk was completely reconstructed.")
     rep.trusted = ["std::io::Read::read_exact / Write::write_all retry short transfers and surface errors (std contract)",
                    "byteorder::ReadBytesExt::read_u8 is read_exact on one byte"]
